@@ -17,6 +17,7 @@ import Pandora.Proofs.C08Term
 import Pandora.Proofs.C08Fault
 import Pandora.Proofs.C08Bisim
 import Pandora.Proofs.C08Coin
+import Pandora.Proofs.C08Pick
 import Pandora.Bridge.ProvLoops
 import Pandora.Drv.C08
 
@@ -692,5 +693,221 @@ example : ((freach ⟨.uri, true, ⟨0, 0⟩, none⟩ 2 1 [.sys .prod]).next ⟨
 -- … the deferred cleanup: a cancelled http run whose Close fails reports the fault; grpc/json drops it
 example : finalClass .uri .canceled .fails = none ∧ finalClass .grpcJson .nil .fails = some .nil ∧
     finalClass .raw .nil .absent = some .nil ∧ (finishOf .jsonLines .canceled .fails).closesSink = true := by decide
+
+/-! ## round 4: chosencases, data sources of the generic JSON provider, machine integers
+
+"entries" of the property are the entries a pass delivers.  With a `chosencases` option (http kinds with and without
+preload, grpc/json) these are the entries of the file whose tag is listed: `chosenOf n pick`, wherever they lie in the
+file — also behind the first `limit` entries.  `Model.C08.runPick` runs the providers' loops with their filter over the
+WHOLE file. -/
+
+/-- **General form with a chosencases option**: every kind that has the option, every file of `n` entries, every list of
+chosen entries that names at least one entry of the file, every limit, passes and cancellation point: the provider ends
+within the model's fuel, consumers have acquired exactly the first `T` entries of the endlessly repeated list of the
+CHOSEN entries in file order, `T` = what stops the run first (limit, passes × number of chosen entries, the cancel),
+`Run` returns nil (Canceled only when the cancel is what stopped it), the sink is closed. -/
+theorem C08_pick_run (inp : Input) (n : Nat) (pick : List Nat) (T : Nat) (hk : inp.kind.hasFilter = true)
+    (hf : 0 < (chosenOf n pick).length)
+    (hT : target inp.b.limit inp.b.passes (chosenOf n pick).length inp.cancelAt = some T) :
+    ∃ o, runPick inp n pick = some o ∧ o.delivered = cycTake (chosenOf n pick) T ∧ o.sinkClosed = true ∧
+      (o.run = .nil ∨ (o.run = .canceled ∧ inp.cancelAt = some T)) := by
+  have hlen : (List.range n).length = n := List.length_range
+  have hn : 0 < n := by
+    cases n with
+    | zero => simp [chosenOf] at hf
+    | succ n => omega
+  have tg := tgt_of_target _ _ _ _ _ hf hT
+  have h := runFuelPick_spec inp (List.range n) (pickPred pick) T hk (by rw [hlen]; exact hn) hf tg
+  rw [hlen] at h
+  refine ⟨⟨cycTake (chosenOf n pick) T, kindEnd inp.kind inp.cancelAt T, true⟩, ?_, rfl, rfl, ?_⟩
+  · unfold runPick; rw [hT]; exact h
+  · simp only
+    have hE : endRes inp.cancelAt T = .nil ∨ (endRes inp.cancelAt T = .canceled ∧ inp.cancelAt = some T) := by
+      unfold endRes
+      by_cases hc : cancelled inp.cancelAt T = true
+      · right
+        obtain ⟨c, hc1, hc2⟩ := (cancelled_true_iff _ _).mp hc
+        have hle := tg.le_cancel c hc1
+        have : c = T := by omega
+        subst this
+        exact ⟨by rw [if_pos hc], hc1⟩
+      · left; rw [if_neg hc]
+    cases hkd : inp.kind <;> simp [kindEnd, hE]
+
+/-- **count with a chosencases option**: nobody cancels ⇒ exactly `min⁺(limit, passes × chosen entries)` ammo, the chosen
+entries in file order over and over, `Run` = nil, sink closed — whatever the position of the chosen entries in the file
+(e.g. all of them behind the first `limit` entries) and whatever `preload` says. -/
+theorem C08_pick_count (k : Kind) (preload : Bool) (b : Bounds) (n : Nat) (pick : List Nat) (m : Nat)
+    (hk : k.hasFilter = true) (hf : 0 < (chosenOf n pick).length)
+    (hm : Spec.C08.expected b.limit b.passes (chosenOf n pick).length = some m) :
+    ∃ o, runPick ⟨k, preload, b, none⟩ n pick = some o ∧ o.delivered = cycTake (chosenOf n pick) m ∧
+      o.delivered.length = m ∧ o.run = .nil ∧ o.sinkClosed = true := by
+  rw [expected_eq_target _ _ _ hf] at hm
+  obtain ⟨o, h1, h2, h3, h4⟩ := C08_pick_run ⟨k, preload, b, none⟩ n pick m hk hf hm
+  refine ⟨o, h1, h2, by rw [h2, length_cycTake _ _ hf], ?_, h3⟩
+  rcases h4 with h | ⟨_, h⟩
+  · exact h
+  · simp at h
+
+/-- **preload does not matter** (with or without a chosencases option, any cancellation point): the same ammo, the same
+result of `Run` -/
+theorem C08_pick_preload (k : Kind) (b : Bounds) (cancelAt : Option Nat) (n : Nat) (pick : List Nat) (T : Nat)
+    (hk : k.hasFilter = true) (hf : 0 < (chosenOf n pick).length)
+    (hT : target b.limit b.passes (chosenOf n pick).length cancelAt = some T) :
+    runPick ⟨k, true, b, cancelAt⟩ n pick = runPick ⟨k, false, b, cancelAt⟩ n pick := by
+  have hlen : (List.range n).length = n := List.length_range
+  have hn : 0 < n := by
+    cases n with
+    | zero => simp [chosenOf] at hf
+    | succ n => omega
+  have tg := tgt_of_target _ _ _ _ _ hf hT
+  have h1 := runFuelPick_spec ⟨k, true, b, cancelAt⟩ (List.range n) (pickPred pick) T hk (by rw [hlen]; exact hn) hf tg
+  have h2 := runFuelPick_spec ⟨k, false, b, cancelAt⟩ (List.range n) (pickPred pick) T hk (by rw [hlen]; exact hn) hf tg
+  rw [hlen] at h1 h2
+  unfold runPick
+  simp only [hT]
+  exact h1.trans h2.symm
+
+/-- a chosencases option that lists every entry is no filter: `runPick` is `run` -/
+theorem C08_pick_all (inp : Input) (n : Nat) (pick : List Nat) (T : Nat) (hk : inp.kind.hasFilter = true) (hn : 0 < n)
+    (hall : ∀ i, i < n → pick.contains i = true)
+    (hT : target inp.b.limit inp.b.passes n inp.cancelAt = some T) :
+    runPick inp n pick = run inp n := by
+  have hch : chosenOf n pick = List.range n := by
+    unfold chosenOf
+    apply List.filter_eq_self.mpr
+    intro i hi
+    exact hall i (List.mem_range.mp hi)
+  have hlen : (List.range n).length = n := List.length_range
+  have hf : 0 < (chosenOf n pick).length := by rw [hch, hlen]; exact hn
+  have hT' : target inp.b.limit inp.b.passes (chosenOf n pick).length inp.cancelAt = some T := by rw [hch, hlen]; exact hT
+  have tg := tgt_of_target _ _ _ _ _ hf hT'
+  have h1 := runFuelPick_spec inp (List.range n) (pickPred pick) T hk (by rw [hlen]; exact hn) hf tg
+  have hf0 : 0 < ((List.range n).filter (fun _ => true)).length := by rw [filter_const_true, hlen]; exact hn
+  have tg0 : Tgt inp.b.limit inp.b.passes ((List.range n).filter (fun _ => true)).length inp.cancelAt T := by
+    rw [filter_const_true, hlen]; exact tgt_of_target _ _ _ _ _ hn hT
+  have h2 := runFuel_spec inp (List.range n) (fun _ => true) T (by rw [hlen]; exact hn) hf0 (fun _ => rfl) tg0
+  rw [filter_const_true] at h2
+  unfold runPick run
+  rw [hT', hT]
+  simp only
+  have e : (List.range n).filter (pickPred pick) = List.range n := hch
+  rw [e] at h1
+  rw [hch]
+  rw [hlen] at h1 h2 ⊢
+  rw [h1, h2]
+
+/-- **Spec holds of the model** for the chosencases cells the harness generates (cap > the expected count of a bounded
+cell, cap ≥ 1): `n` of the Spec's cell = the number of chosen entries, `fileN` = the entries of the file -/
+theorem C08_pick_spec_holds (k : Kind) (preload : Bool) (limit passes n cap : Nat) (pick : List Nat)
+    (hk : k.hasFilter = true) (hf : 0 < (chosenOf n pick).length) (hcap : 0 < cap)
+    (hbig : ∀ m, Spec.C08.expected limit passes (chosenOf n pick).length = some m → m < cap) :
+    Spec.C08.holds { limit, passes, n := (chosenOf n pick).length, cap, fileN := n }
+      (Drv.C08.obsOf cap 0 (runPick ⟨k, preload, ⟨limit, passes⟩, some cap⟩ n pick)) = true := by
+  cases hE : Spec.C08.expected limit passes (chosenOf n pick).length with
+  | none =>
+    have h00 : limit = 0 ∧ passes = 0 := by
+      unfold Spec.C08.expected at hE
+      cases limit <;> cases passes <;> simp_all
+    obtain ⟨rfl, rfl⟩ := h00
+    obtain ⟨o, h1, h2, h3, h4⟩ := C08_pick_run ⟨k, preload, ⟨0, 0⟩, some cap⟩ n pick cap hk hf (by simp [target])
+    have hl : o.delivered.length = cap := by rw [h2, length_cycTake _ _ hf]
+    rw [h1]
+    rcases h4 with h4 | ⟨h4, _⟩ <;>
+      simp [Drv.C08.obsOf, Spec.C08.holds, Spec.C08.countOk, Spec.C08.want, Spec.C08.wantCut, Spec.C08.bounded, hE, hl, hcap,
+        Spec.C08.returnsOk, Spec.C08.runOk, Spec.C08.endOk, Spec.C08.spinOk, h3, h4, Drv.C08.classOf]
+  | some m =>
+    have hlt := hbig m hE
+    have hT : target limit passes (chosenOf n pick).length (some cap) = some (min cap m) :=
+      target_cancel _ _ _ _ _ (by rw [← expected_eq_target _ _ _ hf]; exact hE)
+    obtain ⟨o, h1, h2, h3, h4⟩ := C08_pick_run ⟨k, preload, ⟨limit, passes⟩, some cap⟩ n pick (min cap m) hk hf hT
+    have hmin : min cap m = m := Nat.min_eq_right (by omega)
+    have hl : o.delivered.length = m := by rw [h2, length_cycTake _ _ hf, hmin]
+    have hnil : o.run = .nil := by
+      rcases h4 with h | ⟨_, h⟩
+      · exact h
+      · simp [hmin] at h; omega
+    rw [h1]
+    have hnc : ¬ cap ≤ m := by omega
+    have hc0 : cap ≠ 0 := by omega
+    simp [Drv.C08.obsOf, Spec.C08.holds, Spec.C08.countOk, Spec.C08.want, Spec.C08.wantCut, Spec.C08.bounded, hE, hl, hnc,
+      Spec.C08.returnsOk, Spec.C08.runOk, Spec.C08.endOk, Spec.C08.spinOk, hnil, h3, Drv.C08.classOf, hc0, hmin]
+
+/-! ### data sources of the generic JSON provider
+
+`DecodeProvider.Run` reads its data source through `ioutil2.NewMultiPassReader`, which needs a source that can `Seek`.
+What `OpenSource` of each source of core/datasource hands out is REGENERATED (`Gen.ProvLoops.srcOpens…`, bridged to
+`Model.C08.opensOf`). -/
+
+/-- the property's count clause for the generic JSON provider over a data source of kind `k` -/
+def C08_src_statement : Prop :=
+  ∀ (k : SrcKind) (b : Bounds) (n m : Nat), 0 < n → Spec.C08.expected b.limit b.passes n = some m →
+    ∃ o, runSrc k ⟨.genericJson, false, b, none⟩ n = some o ∧ o.delivered = cyc n m ∧ o.run = .nil ∧ o.sinkClosed = true
+
+/-- **every source that can be rewound** — a file, inline data (`type: inline`), a reader that can Seek with or without a
+Close of its own — behaves like the file source all the other theorems are about: `runSrc` IS `run`. -/
+theorem C08_src_partial (k : SrcKind) (hk : k ≠ .reader ∧ k ≠ .buffer) (b : Bounds) (n m : Nat) (hn : 0 < n)
+    (hm : Spec.C08.expected b.limit b.passes n = some m) :
+    runSrc k ⟨.genericJson, false, b, none⟩ n = run ⟨.genericJson, false, b, none⟩ n ∧
+    ∃ o, runSrc k ⟨.genericJson, false, b, none⟩ n = some o ∧ o.delivered = cyc n m ∧ o.run = .nil ∧ o.sinkClosed = true := by
+  have hs := runSrc_seekable k ((seekable_iff k).mpr hk) ⟨.genericJson, false, b, none⟩ rfl n
+  refine ⟨hs, ?_⟩
+  rw [hs]
+  exact C08_count .genericJson false b n m hn hm
+
+/-- a source that cannot be rewound (a plain io.Reader, a bytes.Buffer) is read ONCE: `min⁺(limit, n)` ammo whatever
+`passes` says; the run still ends cleanly -/
+theorem C08_src_once (k : SrcKind) (hk : k = .reader ∨ k = .buffer) (b : Bounds) (n m : Nat) (hn : 0 < n)
+    (hm : Spec.C08.expected b.limit 1 n = some m) :
+    ∃ o, runSrc k ⟨.genericJson, false, b, none⟩ n = some o ∧ o.delivered = cyc n m ∧ o.run = .nil ∧ o.sinkClosed = true := by
+  have hs : k.seekable = false := by rcases hk with rfl | rfl <;> rfl
+  unfold runSrc effPasses
+  rw [hs]
+  exact C08_count .genericJson false ⟨b.limit, 1⟩ n m hn hm
+
+/-- … so the count clause is FALSE for such a source: one entry, `passes: 2` — two ammo asked for, one delivered -/
+theorem C08_src_counterexample : ¬ C08_src_statement := by
+  intro h
+  obtain ⟨o, h1, h2, _⟩ := h .reader ⟨0, 2⟩ 1 2 (by omega) (by decide)
+  have : (runSrc .reader ⟨.genericJson, false, ⟨0, 2⟩, none⟩ 1).map (·.delivered) = some (cyc 1 2) := by
+    rw [h1]; simp [h2]
+  revert this
+  decide
+
+/-! ### machine integers
+
+limit, passes and the counters of the replay loops are Go `uint`s; `Model.C08.replayStepU` is the loop body of
+runPreloaded / scenario `Run` over `UInt64` with modular arithmetic. -/
+
+/-- **no wrap**: for EVERY 64-bit limit, passes and length and every counter below 2^64 - 1 the loop body over machine
+integers does what the loop body over `Nat` does (`replayStepN`, bridged to the regenerated `runPreloadedStep` /
+`scenarioStep`): the `Nat` models are right for all values of the options, "practically unbounded" ones included. -/
+theorem C08_replay_no_wrap (passes limit length ammoNum : UInt64) (c : Bool) (hinc : ammoNum.toNat + 1 < 2 ^ 64) :
+    actToNat (replayStepU passes limit length c ammoNum)
+      = replayStepN passes.toNat limit.toNat length.toNat c ammoNum.toNat :=
+  replayStepU_eq passes limit length ammoNum c hinc
+
+/-- the same claim for the loop with a precomputed pass bound `passLimit := Passes * length` -/
+def C08_replay_product_statement : Prop :=
+  ∀ (passes limit length ammoNum : UInt64) (c : Bool), ammoNum.toNat + 1 < 2 ^ 64 →
+    actToNat (replayStepProductU passes limit length c ammoNum)
+      = replayStepN passes.toNat limit.toNat length.toNat c ammoNum.toNat
+
+/-- … is FALSE: passes = 2^63, two entries, limit 5 — the product wraps to 0 and the first iteration reports the pass
+limit with nothing sent, where the division form sends entry 0 -/
+theorem C08_replay_product_counterexample : ¬ C08_replay_product_statement := by
+  intro h
+  have := congrArg (fun a => match a with | Act.offer _ _ => true | _ => false) (h (2 ^ 63) 5 2 0 false (by decide))
+  revert this
+  decide
+
+-- round 4 non-vacuity: the chosen entries all lie behind the first `limit` entries of the file, preload on and off
+example : (runPick ⟨.uri, true, ⟨3, 1⟩, none⟩ 6 [3, 4, 5]).map (fun o => (o.delivered, o.run, o.sinkClosed)) = some ([3, 4, 5], .nil, true) ∧
+    (runPick ⟨.uri, false, ⟨3, 1⟩, none⟩ 6 [3, 4, 5]).map (fun o => (o.delivered, o.run, o.sinkClosed)) = some ([3, 4, 5], .nil, true) := by decide
+example : (runPick ⟨.grpcJson, false, ⟨5, 0⟩, none⟩ 4 [1, 3]).map (fun o => (o.delivered, o.run)) = some ([1, 3, 1, 3, 1], .nil) := by decide
+example : Kind.hasFilter .jsonArray = true ∧ 0 < (chosenOf 4 [3]).length ∧ Spec.C08.expected 3 0 (chosenOf 4 [3]).length = some 3 := by decide
+example : (runSrc .inline ⟨.genericJson, false, ⟨5, 3⟩, none⟩ 2).map (·.delivered) = some [0, 1, 0, 1, 0] ∧
+    (runSrc .buffer ⟨.genericJson, false, ⟨5, 3⟩, none⟩ 2).map (·.delivered) = some [0, 1] := by decide
+example : SrcKind.seekable .readSeekCloser = true ∧ SrcKind.seekable .reader = false := by decide
 
 end Pandora.Props.C08
